@@ -34,7 +34,8 @@ def main():
         else:
             # every third of these: routines that write output themselves, called as later values
             # of a printf whose earlier values are pending meanwhile
-            feats = {'printf_calls': True, 'weights': {'print': 7, 'define': 4}} if i % 3 == 1 else None
+            feats = {'printf_calls': True, 'shared_names': True, 'shadow': 0.7,
+                     'weights': {'print': 7, 'define': 4, 'call': 4}} if i % 3 == 1 else None
             prog, pop = progs.generate(rng, size=20 if deep else 12, max_depth=4 if deep else 3,
                                        features=feats)
             if feats:
